@@ -608,13 +608,18 @@ def discover(cfg, rules_dir):
 # ------------------------------------------------------------------------------------------------------------------
 # one scenario
 # ------------------------------------------------------------------------------------------------------------------
-ORDERS = ["fresh", "loaded", "fresh-repoint", "loaded-repoint", "fresh-reinit"]
+ORDERS = ["fresh", "loaded", "fresh-repoint", "loaded-repoint", "fresh-reinit",
+          "detour-back", "detour-back-all", "detour-repair", "detour-repair-all"]
 #   fresh           fault | init(All) probe | repair | probe            (re-initialises when the faulted initialisation itself failed)
 #   loaded          init(All) probe | fault | probe | repair | probe
 #   fresh-repoint   fault | init(default CheckRuleFiles) probe | set_rules_dir(other, pristine directory) + preferences, probe
 #   loaded-repoint  init(All) probe | fault | probe | set_rules_dir(other, pristine directory) + preferences, probe
 #   fresh-reinit    fault | init(default CheckRuleFiles) probe | repair | set_rules_dir(same directory) + preferences, probe
 #                   (unreadable file: CheckRuleFiles stays at its default; damaged but loadable file: CheckRuleFiles=All is set now)
+#   detour-back     init(intact directory B) probe | set_rules_dir(copy A that holds the fault) + preferences, probe |
+#                   set_rules_dir(B) + preferences, probe        -- a (re)load that failed half way must not be taken for B's table
+#   detour-repair   init(B) probe | set_rules_dir(damaged A) + preferences, probe | repair A | set_rules_dir(A) + preferences, probe
+#   ...-all         the same with CheckRuleFiles=All instead of the default
 
 
 class Judge:
@@ -751,7 +756,34 @@ def run_scenario(env, base, sc, st=None):
     d = core.Driver("native", env=extra_env)
     try:
         try:
-            if order in ("loaded", "loaded-repoint"):
+            if order.startswith("detour-"):
+                check = "All" if order.endswith("-all") else None
+                ops = init_ops(cfg, env.b, check=check) + probes
+                res, hook = run_phase(d, ops)
+                want = base["outs"][:2] + base["outs"][(3 if check is None else 2):]
+                if [norm_out(o, r) for o, r in zip(ops, res)] != want:
+                    j.notes.append("harness:pre-fault run differs from the baseline")
+                    return j
+                damage()
+                ops = init_ops(cfg, env.a, check=check) + probes
+                res, hook = run_phase(d, ops)
+                judge_fault_phase(j, base, ops, res, must, rel, order)
+                pad = [None] * (base["n_init"] - len(init_ops(cfg, env.a, check=check)))
+                effect_seen(j, base, pad + ops, pad + res, hook, env.a)
+                if order.startswith("detour-back"):
+                    ops = init_ops(cfg, env.b, check=check) + probes
+                    res, hook = run_phase(d, ops)
+                    compare_recovery(j, base, ops, res, hook, env.b, "after set_rules_dir back to the intact directory that was loaded before" +
+                                     (" (CheckRuleFiles=All)" if check else ""))
+                else:
+                    # as in fresh-reinit: a damaged file that could be loaded is only re-read when file checking is enabled
+                    repair()
+                    check2 = check if must else "All"
+                    ops = init_ops(cfg, env.a, check=check2) + probes
+                    res, hook = run_phase(d, ops)
+                    compare_recovery(j, base, ops, res, hook, env.a, "after repair and set_rules_dir on the repaired directory" +
+                                     (" (CheckRuleFiles=All)" if check2 else ""))
+            elif order in ("loaded", "loaded-repoint"):
                 ops = init_ops(cfg, env.a) + probes
                 res, hook = run_phase(d, ops)
                 outs = [norm_out(o, r) for o, r in zip(ops, res)]
@@ -989,6 +1021,7 @@ def scenarios_for(base, tier, rng):
     cfg = base["cfg"]
     out = []
     n_params = {"quick": 1, "thorough": 4}[tier]
+    rng_flip = rng.random() < 0.5
     for rel in sorted(base["files"]):
         for kind in FAULT_KINDS:
             positional = kind not in ("deleted", "empty", "type-swapped", "type-scalar", "appended-item")
@@ -999,7 +1032,11 @@ def scenarios_for(base, tier, rng):
                 params.append(0.0)      # keep only the first item: the loadable damage with the largest effect on the outputs
             for p in params:
                 for order in ORDERS:
-                    if tier == "quick" and order not in ("fresh", "loaded") and rng.random() > 0.34:
+                    if tier == "quick" and order.startswith("detour-back"):
+                        # one of the two CheckRuleFiles variants per (file, kind, position), chosen by the seed
+                        if (order == "detour-back") != (core.sub_seed(rel, kind, p, "detour") % 2 == (0 if rng_flip else 1)):
+                            continue
+                    elif tier == "quick" and order not in ("fresh", "loaded") and rng.random() > 0.34:
                         continue
                     out.append({"cfg": cfg, "file": rel, "kind": kind, "param": round(p, 4), "order": order})
     for dk in DIR_KINDS:
